@@ -1122,6 +1122,9 @@ def fromFunction(func, interface=None, imlevel=0, name=None):
     method = Method(name, func.__doc__)
     defaults = getattr(func, '__defaults__', None) or ()
     code = func.__code__
+    # The implied first argument (``self``) can only be left out if it
+    # is a positional parameter: ``def meth(*args)`` receives it in ``args``.
+    imlevel = min(imlevel, code.co_argcount)
     # Number of positional arguments
     na = code.co_argcount - imlevel
     names = code.co_varnames[imlevel:]
